@@ -70,6 +70,11 @@ ASSUME Accepts(Bye1) /\ ~Accepts([Bye1 EXCEPT !.padding = 5])
 ASSUME WriteErrAllowed([Bye1 EXCEPT !.padding = 5], Err("InvalidPadding", <<5>>))
 ASSUME ~WriteErrAllowed([Bye1 EXCEPT !.padding = 5], Err("InvalidPadding", <<4>>))
 ASSUME BitsOf(<<240, 255>>, 8) = BitsOf(<<240>>, 0)
+ASSUME IsUtf8(<<>>) /\ IsUtf8(<<97, 195, 169>>) /\ IsUtf8(<<226, 130, 172>>) /\ IsUtf8(<<240, 159, 152, 128>>) /\ IsUtf8(<<224, 160, 128>>)
+ASSUME IsUtf8(<<237, 159, 191>>) /\ IsUtf8(<<244, 143, 191, 191>>) /\ IsUtf8(<<0, 127>>)
+ASSUME ~IsUtf8(<<192, 128>>) /\ ~IsUtf8(<<193, 191>>) /\ ~IsUtf8(<<237, 160, 128>>) /\ ~IsUtf8(<<244, 144, 128, 128>>) /\ ~IsUtf8(<<245, 128, 128, 128>>)
+ASSUME ~IsUtf8(<<128>>) /\ ~IsUtf8(<<195>>) /\ ~IsUtf8(<<224, 159, 128>>) /\ ~IsUtf8(<<240, 143, 128, 128>>) /\ ~IsUtf8(<<226, 130>>) /\ ~IsUtf8(<<97, 255>>)
+ASSUME UntilZero(<<97, 0, 98, 0>>) = <<97>> /\ UntilZero(<<0, 0, 0, 0>>) = <<>> /\ UntilZero(<<97, 98, 99, 100>>) = <<97, 98, 99, 100>>
 ASSUME PrintT("WireTest: all vectors hold")
 
 VARIABLE x
